@@ -105,7 +105,10 @@ static Toks ref_cmdargs(const std::string &s)
 // ---------------------------------------------------------------- split / join / trim
 static void check_split(const std::string &s)
 {
-    static const char DELIM_CH[2] = {' ', '/'};
+    // NUL is an ordinary byte of a sized buffer and an ordinary delimiter value (DESIGN 3a); 0xFF / 0x80 as delimiter
+    // values only where the text can contain them
+    static const char DELIM_CH[5] = {' ', '/', '\0', (char)0xFF, (char)0x80};
+    const bool high = has_high(s);
     static const char *DELIM_SETS[4] = {" \t\n", "/.", "b", "\xA0."};
     for (int m = 0; m < 2; m++)
     {
@@ -114,6 +117,8 @@ static void check_split(const std::string &s)
         igris::buffer buf((const void *)e.p, s.size());
         for (char d : DELIM_CH)
         {
+            if ((unsigned char)d >= 0x80 && !high)
+                continue;
             vf::cls("split(char)");
             Toks got = igris::split(buf, d), ref = ref_split(s, std::string(1, d));
             if (got != ref)
@@ -133,6 +138,8 @@ static void check_split(const std::string &s)
                 vf::fail("split(char):split(join(t))!=t", "tokens=%s delim='%s' joined=\"%s\"", show(ref).c_str(), vf::esc(&d, 1).c_str(),
                          show(j).c_str());
             VF_OK("split(join(tokens)) == tokens");
+            if (d == '\0' && ref.size() >= 2)
+                VF_OK("split/join with delimiter NUL and >= 2 tokens");
         }
         for (const char *ds : DELIM_SETS)
         {
@@ -199,6 +206,15 @@ static std::vector<std::string> needles_for(const std::string &s)
         v.push_back(s.substr(n / 2, 2));
     if (n >= 1)
         v.push_back(s + "a"); // longer than the haystack
+    if (n > 200)
+    {
+        // long needles: the tail, the head, the middle and the whole haystack
+        v.push_back(s.substr(n - (n < 257 ? n : 257)));
+        v.push_back(s.substr(0, n < 300 ? n : 300));
+        v.push_back(s.substr(n / 3, n / 2));
+        v.push_back(s);
+        v.push_back(s.substr(n / 2) + "#");
+    }
     return v;
 }
 static void check_memmem(const std::string &s)
@@ -409,7 +425,7 @@ static void creader_run(uint64_t idx)
 VF_SUITE(enum_creader, n_enum, creader_run)
 
 // seeded random longer inputs through everything
-static uint64_t rand_count() { return vf::thorough() ? 400000 : 6000; }
+static uint64_t rand_count() { return scaled(vf::thorough() ? 400000 : 6000); }
 static void rand_run(uint64_t idx)
 {
     vf::Rng r(vf::seed(), 0xC19, idx);
@@ -427,6 +443,60 @@ static void rand_run(uint64_t idx)
 }
 VF_SUITE(random_text, rand_count, rand_run)
 
+// long tokens / lines / haystacks (254..5000 bytes and several KiB in total) through every text family
+static std::string long_text(uint64_t idx)
+{
+    size_t L = LONG_LENS[idx % 6];
+    unsigned salt = (unsigned)(idx / 6);
+    std::string t = long_token(L, salt), s;
+    switch ((idx / 6) % 8)
+    {
+    case 0:
+        return t;
+    case 1:
+        return t + " " + long_token(L, salt + 3) + "  " + t;
+    case 2:
+        return std::string(L, ' ') + "x" + std::string(L, '\t') + "\r\n";
+    case 3:
+    {
+        std::string q = t;
+        for (size_t i = 5; i < q.size(); i += 11)
+            q[i] = ' ';
+        return "\"" + q + "\" " + t + " '" + q;
+    }
+    case 4:
+        return t + "/" + long_token(L, salt + 1) + "/./" + std::string(1, '\0') + t + "\xFF";
+    case 5:
+        for (size_t i = 0; s.size() < L * 2; i++)
+            s += long_token(i % 9, salt) + (i % 3 ? "\n" : "\r\n");
+        return s + t;
+    case 6:
+        for (size_t i = 0; i < L / 2; i++)
+            s += "ab";
+        return s + "aba a b /.";
+    default:
+        s = t;
+        for (size_t i = 0; i < s.size(); i += 127)
+            s[i] = "a/ \"b"[i % 5];
+        return s + s;
+    }
+}
+static uint64_t long_count() { return 48; }
+static void long_run(uint64_t idx)
+{
+    std::string s = long_text(idx);
+    if (vf::verbose())
+        printf("  long input shape %d, token length %zu, %zu bytes: \"%s\"\n", (int)((idx / 6) % 8), LONG_LENS[idx % 6], s.size(), show(s).c_str());
+    check_split(s);
+    check_cmdargs(s);
+    check_memmem(s);
+    check_replace(s, idx, 0);
+    check_creader(s);
+    VF_OK("long inputs (tokens of 254..5000 bytes) through split/join/trim, split_cmdargs, memmem, replace, creader");
+    vf::count_case(vf::hash_bytes(s.data(), s.size()), true);
+}
+VF_SUITE(long_text, long_count, long_run)
+
 void c19_path_setup();
 void c19_shell_setup();
 extern "C" void vf_setup()
@@ -440,7 +510,8 @@ extern "C" void vf_setup()
           "replace_substrings truncated == first maxsize-1 bytes of the full result + terminator",
           "replace_substrings truncated, pattern and replacement of equal length >= 2", "replace_substrings with maxsize 0 writes nothing (ASan)",
           "creader_readline: line and cursor inside [strt, fini]", "creader_readline at the end returns -1",
-          "creader_skipws == length of the leading white-space run"})
+          "creader_skipws == length of the leading white-space run", "split/join with delimiter NUL and >= 2 tokens",
+          "long inputs (tokens of 254..5000 bytes) through split/join/trim, split_cmdargs, memmem, replace, creader"})
         vf::require(c);
     c19_path_setup();
     c19_shell_setup();
